@@ -9,10 +9,13 @@ NOTE_COMMON = ("Trusted base: CPython's ast, the idiom lists in /verif/rules, py
 
 
 def register(claim):
-    claim("C16", "literal-table folding + exhaustive evaluation of the folded table; resolver shape by def-use and a 3-valued CFG walk",
+    claim("C16", "literal-table folding + exhaustive evaluation of the folded table; resolver shape by def-use and a 3-valued CFG walk; "
+          "when the function is not 'tables + canonical lookup': partial evaluation of its syntax tree over the whole finite domain (sa/minieval.py)",
           "Static, exhaustive over the finite domain: the three transition tables are folded from the AST, the resolver is "
           "shown structurally to be a pure lookup in them, and the folded table is evaluated on all 15x(4+unsupported)x18x15x2 "
-          "points against the six lifecycle clauses (totality, absorbing, no way back, created, request permission, enum plumbing).",
+          "points against the six lifecycle clauses (totality, absorbing, no way back, created, request permission, enum plumbing). "
+          "A restructured function is folded by the checker's own evaluator for a fixed fragment of Python (nothing of the repository is run); "
+          "code outside that fragment is an analysis error.",
           NOTE_COMMON + " Nine cancel-reject cells (acknowledged -> PENDING_NEW) are pinned by existing tests and listed as known findings.",
           "DESIGN.md#c16")
 
